@@ -242,8 +242,63 @@ def special_float_cases(ctx):
                           {"suite": "c08-special", "spec": _jsonable(spec), "shown": shown,
                            "impl": got, "expected": exp, "first_failing_clause": "i-th output = operator(i-th operand outputs)"})
 
+# ---- poll(): printing a pattern's values must not change any pattern's values ----------------------------------------
+# Pattern.poll() wraps __next__ on the CLASS of the polled object.  Operator nodes of one class are everywhere in an
+# expression, so a slip there changes what OTHER nodes of that class compute.  Run in a forked child (process-wide state).
+
+def _poll_child(seed, n_cases):
+    import contextlib
+    import io
+    import random
+    iso = pat_impl.iso
+    r = random.Random(seed)
+    names = sorted(k for k in PYOP if k not in ("and", "pow", "lshift", "rshift", "div", "floorDiv", "mod"))
+    out = []
+
+    def seq():
+        return [r.randint(-9, 9) for _ in range(r.randint(2, 5))]
+
+    for i in range(n_cases):
+        op = r.choice(names)
+        f = PYOP[op]
+        a, b, c, d = seq(), seq(), seq(), seq()
+        k = r.randint(1, 9)
+        exp_inner = [f(x, y) for x, y in zip(a, b)]
+        exp_other = [f(x, y) for x, y in zip(c, d)]
+        exp_outer = [f(x, k) for x in exp_inner]
+        with contextlib.redirect_stdout(io.StringIO()):
+            inner = f(iso.PSequence(a, 1), iso.PSequence(b, 1))
+            inner.poll()
+            other = f(iso.PSequence(c, 1), iso.PSequence(d, 1))         # same class, never polled
+            outer = f(inner, k)                                           # same class, wraps the polled node
+            got_outer = outer.all()
+            got_other = other.all()
+            inner2 = f(iso.PSequence(a, 1), iso.PSequence(b, 1))
+            got_fresh = inner2.all()
+        if got_outer != exp_outer or got_other != exp_other or got_fresh != exp_inner:
+            out.append({"op": op, "a": a, "b": b, "c": c, "d": d, "k": k, "outer": got_outer, "expected_outer": exp_outer,
+                        "other": got_other, "expected_other": exp_other, "fresh": got_fresh, "expected_fresh": exp_inner})
+    return n_cases, out
+
+
+def poll_cases(ctx):
+    from .. import pat_props as _pp
+    n, bad = _pp.run_forked(_poll_child, ctx.rng.getrandbits(48), ctx.scale(150, 5000))
+    ctx.case(("poll", n), nontrivial=True, validated=False, sample={"part": "poll", "cases": n, "failures": len(bad)})
+    ctx.count("poll")
+    ctx.extra["poll_cases"] = n
+    if bad:
+        b = bad[0]
+        ctx.violation("C08:elementwise-after-poll:" + b["op"],
+                      "after poll() on one %s node: outer expression %s (expected %s), an unrelated node of the class %s (expected %s), "
+                      "a new node %s (expected %s)" % (b["op"], b["outer"], b["expected_outer"], b["other"], b["expected_other"],
+                                                       b["fresh"], b["expected_fresh"]),
+                      {"suite": "c08-poll", "case": b, "failures": len(bad), "first_failing_clause": "i-th output = operator(i-th operand outputs)"})
+
+
 def run(ctx):
     special_float_cases(ctx)
+    poll_cases(ctx)
     n_cases = ctx.scale(2500, 250000)
     scripts = []
     exprs = {}
